@@ -22,6 +22,8 @@ def main():
     name = sys.argv[sys.argv.index("--as") + 1] if "--as" in sys.argv else k
     src = "%s/%s/m%s" % (base, prop, k)
     dst = os.path.join(VERIF, "seeded", "%s-%s" % (prop, name))
+    if "--reconfirm" in sys.argv:          # the committed copy is the source: seedconfirm.py C05 3 --reconfirm
+        src = dst = os.path.join(VERIF, "seeded", "%s-%s" % (prop, k))
     assert os.path.exists(os.path.join(src, "patch.diff")), src
     assert sh("git -C %s status --porcelain" % REPO).stdout.strip() == "", "repo working tree not clean"
     res = {"property": prop, "mutation": int(k)}
@@ -75,7 +77,7 @@ def main():
             pass
     res["repo_head"] = sh("git -C %s rev-parse --short HEAD" % REPO).stdout.strip()
     for f in ("patch.diff", "demonstration.py", "demonstration.txt", "meta.json"):
-        if os.path.exists(os.path.join(src, f)):
+        if src != dst and os.path.exists(os.path.join(src, f)):
             shutil.copy(os.path.join(src, f), os.path.join(dst, f))
     json.dump(res, open(os.path.join(dst, "result.json"), "w"), indent=1, ensure_ascii=False)
     print(prop, k, "applies" if res.get("applies") else "DOES-NOT-APPLY", "demo mutated/clean = %s/%s" % (res.get("demonstration_exit_mutated"), res["demonstration_exit_clean"]),
